@@ -1,5 +1,356 @@
-use crate::common::Ctx;
-pub fn run(_ctx: &Ctx, _replay: Option<&serde_json::Value>) -> i32 {
-    eprintln!("not implemented");
-    2
+//! C19 — CLI contract: exit status, outputs object, input merging, #name.
+//!
+//! Reference model of the contract (statement outcomes -> exit status and outputs object;
+//! left-to-right input merge with value_n numbering; #name == inputs.name); every model trace
+//! (script x input set x invocation mode) is replayed against the real `blots` binary.
+
+use crate::alpha::words;
+use crate::common::*;
+use crate::proc::{run_blots, scratch_file};
+use indexmap::IndexMap;
+use serde_json::{Value as J, json};
+
+const ALPHABET: [&str; 11] = [
+    "a = 1",
+    "output b = 2",
+    "output a",
+    "output b",
+    "c = nope",
+    "output f = x => x + zz",
+    "a = = 1",
+    "// just a comment",
+    "output d = inputs.k",
+    "output g = [#k, inputs.k, #missing, inputs.missing]",
+    "output v = [#value_1, inputs.value_2, #j]",
+];
+
+#[derive(Clone, Debug)]
+struct InputSet {
+    name: &'static str,
+    stdin: Option<&'static str>,
+    flags: Vec<&'static str>,
+}
+
+fn input_sets() -> Vec<InputSet> {
+    let i = |name, stdin, flags: &[&'static str]| InputSet { name, stdin, flags: flags.to_vec() };
+    vec![
+        i("none", None, &[]),
+        i("one-object", None, &["{\"k\": 1}"]),
+        i("override", None, &["{\"k\": 1}", "{\"k\": 2}"]),
+        i("partial-override", None, &["{\"k\": 1, \"j\": 5}", "{\"j\": 6}"]),
+        i("array", None, &["[1, 2]"]),
+        i("two-scalars", None, &["5", "\"s\""]),
+        i("object-scalar-object", None, &["{\"k\": 1}", "9", "{\"k\": 3, \"value_1\": \"explicit\"}"]),
+        i("stdin-object", Some("{\"k\": \"from-stdin\"}"), &[]),
+        i("stdin-then-flag", Some("{\"k\": 1, \"j\": 1}"), &["{\"k\": 2}"]),
+        i("stdin-scalar-then-flag-scalar", Some("7"), &["8"]),
+        i("stdin-empty", Some(""), &["{\"k\": 4}"]),
+        i("bad-flag", None, &["{\"k\": 1}", "not json"]),
+        i("bad-stdin", Some("{oops"), &[]),
+        i("null-value", None, &["{\"k\": null}"]),
+    ]
+}
+
+#[derive(Clone, Copy, PartialEq, Debug)]
+enum Mode {
+    File,
+    Inline,
+    EvalStdin,
+    OutFile,
+}
+
+/// Model: merged inputs or an input error.
+fn model_inputs(set: &InputSet, mode: Mode) -> Result<IndexMap<String, J>, ()> {
+    let mut merged: IndexMap<String, J> = IndexMap::new();
+    let mut counter = 0;
+    let mut sources: Vec<&str> = vec![];
+    if mode != Mode::EvalStdin {
+        if let Some(s) = set.stdin {
+            if !s.trim().is_empty() {
+                sources.push(s);
+            }
+        }
+    }
+    sources.extend(set.flags.iter());
+    for src in sources {
+        let j: J = serde_json::from_str(src).map_err(|_| ())?;
+        match j {
+            J::Object(o) => {
+                // serde_json::Map without preserve_order iterates in key order; order of insertion
+                // into the merged record does not matter for lookups
+                for (k, v) in o {
+                    merged.insert(k, v);
+                }
+            }
+            other => {
+                counter += 1;
+                merged.insert(format!("value_{}", counter), other);
+            }
+        }
+    }
+    Ok(merged)
+}
+
+struct ModelResult {
+    ok: bool,
+    outputs: IndexMap<String, J>,
+}
+
+fn model_run(script: &[usize], inputs: &IndexMap<String, J>) -> ModelResult {
+    let mut env: IndexMap<String, J> = IndexMap::new();
+    let mut outputs: IndexMap<String, J> = IndexMap::new();
+    let fail = |outputs: IndexMap<String, J>| ModelResult { ok: false, outputs };
+    if script.iter().any(|s| ALPHABET[*s] == "a = = 1") {
+        return fail(IndexMap::new());
+    }
+    let inp = |k: &str| inputs.get(k).cloned().unwrap_or(J::Null);
+    let num = |n: i64| json!(n as f64);
+    for s in script {
+        match ALPHABET[*s] {
+            "a = 1" => {
+                if env.contains_key("a") {
+                    return fail(outputs);
+                }
+                env.insert("a".into(), num(1));
+            }
+            "output b = 2" => {
+                if env.contains_key("b") {
+                    return fail(outputs);
+                }
+                env.insert("b".into(), num(2));
+                outputs.insert("b".into(), num(2));
+            }
+            "output a" | "output b" => {
+                let n = &ALPHABET[*s][7..];
+                match env.get(n) {
+                    Some(v) => {
+                        outputs.insert(n.to_string(), v.clone());
+                    }
+                    None => return fail(outputs),
+                }
+            }
+            "c = nope" | "output f = x => x + zz" => return fail(outputs),
+            "// just a comment" => {}
+            "output d = inputs.k" => {
+                if env.contains_key("d") {
+                    return fail(outputs);
+                }
+                env.insert("d".into(), inp("k"));
+                outputs.insert("d".into(), inp("k"));
+            }
+            "output g = [#k, inputs.k, #missing, inputs.missing]" => {
+                if env.contains_key("g") {
+                    return fail(outputs);
+                }
+                let v = json!([inp("k"), inp("k"), J::Null, J::Null]);
+                env.insert("g".into(), v.clone());
+                outputs.insert("g".into(), v);
+            }
+            "output v = [#value_1, inputs.value_2, #j]" => {
+                if env.contains_key("v") {
+                    return fail(outputs);
+                }
+                let v = json!([inp("value_1"), inp("value_2"), inp("j")]);
+                env.insert("v".into(), v.clone());
+                outputs.insert("v".into(), v);
+            }
+            _ => unreachable!(),
+        }
+    }
+    ModelResult { ok: true, outputs }
+}
+
+/// JSON equality with numbers as doubles.
+fn json_eq(a: &J, b: &J) -> bool {
+    match (a, b) {
+        (J::Number(x), J::Number(y)) => x.as_f64() == y.as_f64(),
+        (J::Array(x), J::Array(y)) => x.len() == y.len() && x.iter().zip(y).all(|(p, q)| json_eq(p, q)),
+        (J::Object(x), J::Object(y)) => x.len() == y.len() && x.iter().all(|(k, v)| y.get(k).map(|w| json_eq(v, w)).unwrap_or(false)),
+        _ => a == b,
+    }
+}
+
+/// Lines of `text` that parse as a JSON object.
+fn json_object_lines(text: &str) -> Vec<J> {
+    text.lines().filter_map(|l| serde_json::from_str::<J>(l.trim()).ok()).filter(|j| j.is_object()).collect()
+}
+
+fn check(ctx: &Ctx, script: &[usize], set: &InputSet, mode: Mode) {
+    let source: String = script.iter().map(|s| ALPHABET[*s]).collect::<Vec<_>>().join("\n");
+    let desc = format!("[{:?} / inputs {}] {}", mode, set.name, source.replace('\n', " ; "));
+    let case = json!({"script": script, "inputs": set.name, "mode": format!("{:?}", mode)});
+    // ---- model
+    let inputs = model_inputs(set, mode);
+    let model = match &inputs {
+        Ok(i) => model_run(script, i),
+        Err(()) => ModelResult { ok: false, outputs: IndexMap::new() },
+    };
+    // ---- real run
+    let mut args: Vec<String> = vec![];
+    let mut stdin: Option<Vec<u8>> = set.stdin.map(|s| s.as_bytes().to_vec());
+    let mut file = None;
+    let mut out_file = None;
+    match mode {
+        Mode::File | Mode::OutFile => {
+            let f = scratch_file("script");
+            let _ = std::fs::write(&f, &source);
+            args.push(f.clone());
+            file = Some(f);
+        }
+        Mode::Inline => args.push(if source.is_empty() { "// empty".to_string() } else { source.clone() }),
+        Mode::EvalStdin => {
+            args.push("-e".into());
+            stdin = Some(source.as_bytes().to_vec());
+        }
+    }
+    if mode == Mode::OutFile {
+        let o = scratch_file("out");
+        let _ = std::fs::remove_file(&o);
+        args.push("-o".into());
+        args.push(o.clone());
+        out_file = Some(o);
+    }
+    for f in &set.flags {
+        args.push("-i".into());
+        args.push(f.to_string());
+    }
+    // a closed/empty stdin: /dev/null is "piped" (not a terminal) and empty
+    let r = run_blots(&args, stdin.as_deref(), None);
+    ctx.count(1);
+    ctx.nontrivial(&desc);
+    let written = out_file.as_ref().and_then(|o| std::fs::read_to_string(o).ok());
+    if let Some(f) = &file {
+        let _ = std::fs::remove_file(f);
+    }
+    if let Some(o) = &out_file {
+        let _ = std::fs::remove_file(o);
+    }
+    let viol = |kind: &str, exp: String, obs: String| {
+        ctx.violation(Violation { kind: kind.to_string(), class: format!("{:?}|{}", mode, set.name), input: desc.clone(), expected: exp, observed: obs, case: case.clone() });
+    };
+    if r.crashed() {
+        viol("crash", "exit 0 or 1".into(), r.describe());
+        return;
+    }
+    let stdout_objects = json_object_lines(&r.stdout);
+    if model.ok {
+        ctx.outcome("model-success");
+        if r.code != Some(0) {
+            viol("exit-status", "exit 0 (every statement succeeds)".into(), r.describe());
+            return;
+        }
+        let (text, objects) = if mode == Mode::OutFile {
+            if !stdout_objects.is_empty() {
+                viol("outputs-on-stdout-despite--o", "no JSON object on stdout".into(), r.describe());
+            }
+            match &written {
+                Some(t) => (t.clone(), json_object_lines(t)),
+                None => {
+                    viol("output-file-missing", "the --output file holds the outputs object".into(), r.describe());
+                    return;
+                }
+            }
+        } else {
+            (r.stdout.clone(), stdout_objects.clone())
+        };
+        if objects.len() != 1 {
+            viol("outputs-object-count", "exactly one JSON object".into(), format!("{} objects in {:?}", objects.len(), truncate(&text, 200)));
+            return;
+        }
+        let want = J::Object(model.outputs.iter().map(|(k, v)| (k.clone(), v.clone())).collect());
+        if !json_eq(&objects[0], &want) {
+            viol("outputs-value", want.to_string(), truncate(&text, 300));
+            return;
+        }
+        // declaration order of the keys in the raw text
+        let mut last = 0usize;
+        for k in model.outputs.keys() {
+            match text.find(&format!("\"{}\":", k)) {
+                Some(p) if p >= last => last = p,
+                _ => {
+                    viol("outputs-order", format!("keys in declaration order {:?}", model.outputs.keys().collect::<Vec<_>>()), truncate(&text, 300));
+                    return;
+                }
+            }
+        }
+    } else {
+        ctx.outcome("model-failure");
+        if r.code == Some(0) || r.code.is_none() {
+            viol("exit-status", "non-zero exit (a statement or an input fails)".into(), r.describe());
+            return;
+        }
+        if !stdout_objects.is_empty() {
+            viol("outputs-object-despite-failure", "no outputs object on stdout".into(), truncate(&r.stdout, 300));
+        }
+        if r.stdout.trim().is_empty() && r.stderr.trim().is_empty() {
+            viol("silent-failure", "the error is reported".into(), r.describe());
+        }
+        if written.is_some() {
+            viol("output-file-written-despite-failure", "no --output file".into(), format!("{:?}", written));
+        }
+    }
+}
+
+pub fn run(ctx: &Ctx, replay: Option<&J>) -> i32 {
+    let sets = input_sets();
+    if let Some(r) = replay {
+        let script: Vec<usize> = r["case"]["script"].as_array().map(|a| a.iter().map(|x| x.as_u64().unwrap_or(0) as usize).collect()).unwrap_or_default();
+        let set = sets.iter().find(|s| Some(s.name) == r["case"]["inputs"].as_str()).cloned().unwrap_or(sets[0].clone());
+        let mode = match r["case"]["mode"].as_str() {
+            Some("Inline") => Mode::Inline,
+            Some("EvalStdin") => Mode::EvalStdin,
+            Some("OutFile") => Mode::OutFile,
+            _ => Mode::File,
+        };
+        check(ctx, &script, &set, mode);
+        return if ctx.violation_count() > 0 {
+            println!("VIOLATION property=C19 replay=<replayed>");
+            1
+        } else {
+            0
+        };
+    }
+    let max_len = ctx.tier.pick(3, 4);
+    let idx: Vec<usize> = (0..ALPHABET.len()).collect();
+    let scripts: Vec<Vec<usize>> = words(&idx, max_len);
+    let modes = [Mode::File, Mode::Inline, Mode::EvalStdin, Mode::OutFile];
+    let mut jobs: Vec<(usize, usize, Mode)> = vec![];
+    for (si, s) in scripts.iter().enumerate() {
+        for (ii, set) in sets.iter().enumerate() {
+            for m in modes {
+                // -e reads the source from stdin: input sets that use stdin do not apply
+                if m == Mode::EvalStdin && set.stdin.is_some() {
+                    continue;
+                }
+                // every script in file mode with every input set; other modes for scripts of length <= 2
+                // (quick) / <= 3 (thorough) and for a rotating subset of the longer ones
+                let short = s.len() <= ctx.tier.pick(2, 3);
+                if m == Mode::File || short || (si + ii) % 7 == 0 {
+                    jobs.push((si, ii, m));
+                }
+            }
+        }
+    }
+    ctx.set("scripts", json!(scripts.len()));
+    ctx.set("input_sets", json!(sets.iter().map(|s| s.name).collect::<Vec<_>>()));
+    ctx.set("alphabet", json!(ALPHABET));
+    par_for(jobs.len(), |i| {
+        let (si, ii, m) = jobs[i];
+        check(ctx, &scripts[si], &sets[ii], m);
+    });
+    crate::proc::cleanup_scratch();
+    ctx.sample(json!({"script": ["a = 1", "output a", "output b = 2"], "inputs": "override", "mode": "File", "model": {"exit": 0, "outputs": {"a": 1, "b": 2}}}));
+    ctx.sample(json!({"script": ["output b = 2", "c = nope"], "inputs": "none", "mode": "OutFile", "model": {"exit": "non-zero", "file": "not written"}}));
+    ctx.sample(json!({"script": ["output v = [#value_1, inputs.value_2, #j]"], "inputs": "stdin-scalar-then-flag-scalar", "model": {"outputs": {"v": [7, 8, null]}}}));
+    ctx.require_outcome("model-success", 500);
+    ctx.require_outcome("model-failure", 500);
+    let n = jobs.len() as u64;
+    ctx.set("trusted_base", json!(["reference model of the CLI contract in mc/src/c19.rs (model_inputs, model_run)"]));
+    finish(
+        ctx,
+        "model_checking",
+        "model traces = every script of length <= 3/4 over an 11-statement alphabet (bind, output-with-binding, output of bound/unbound name, re-output, evaluation failure, non-portable function output, parse error, comment, #name / inputs.name reads, value_n reads) x 14 input sets (0..3 --input flags and/or stdin; objects with overlapping keys, arrays, scalars, explicit value_1 key, empty stdin, invalid JSON) x 4 invocation modes (file, inline, -e stdin, -o file); every trace is executed by the real binary and compared with the model (exit status biconditional, exactly one outputs object with the model's keys in declaration order and values, no object / no file on failure, diagnostics present); distinct = distinct (script, inputs, mode)",
+        true,
+        Some((scripts.len() as u64 * sets.len() as u64, n, n)),
+    )
 }
